@@ -228,6 +228,9 @@ class Check:
                 new.append((sig, desc, rep))
         for k, items in sorted(known.items()):
             print("KNOWN-FINDING: property=%s %s (%d cases, e.g. %s)" % (self.pid, k, len(items), items[0][1][:200]), flush=True)
+        for k in sorted(known_sigs):
+            if k not in known:   # listed, but this run's (seeded) sample did not reach it
+                print("KNOWN-FINDING: property=%s %s (listed in known_findings.json; not reached by this run: %s)" % (self.pid, k, known_sigs[k]["description"][:160]), flush=True)
         rc = 0
         rdir = os.environ.get("VERIF_REPLAY_DIR", os.path.join(VERIF, "replays"))
         os.makedirs(rdir, exist_ok=True)
